@@ -22,6 +22,9 @@ EMBED = [  # integer affine maps (x, y) -> R^3 with integer area scale
     (lambda x, y: (x, y, 0), 1),
     (lambda x, y: (5, 3 * x, 4 * y), 12),
     (lambda x, y: (x + 2 * y + 1, 2 * x + y, 2 * x - 2 * y - 3), 9),
+    # long narrow faces (thin radial shells): corners a degree or two apart as seen from the face centre
+    (lambda x, y: (40 * x, y, 2), 40),
+    (lambda x, y: (3, 2 * y, 50 * x), 100),
 ]
 
 
